@@ -20,7 +20,7 @@ import (
 	"verifharness/lib/vlib"
 )
 
-const rule = "programs with every argument buffer poisoned after each call and every DB.Get/Transaction.Get result scribbled over (full capacity) or held-then-scribbled, iterator key/value re-checked before each move, results vs Go map; all cells of {pool on/off} x {block cache on/off/tiny/no-LRU} x {none,snappy} x {write buffer, frozen buffer, level 0, deeper level} enumerated; non-trivial = the program contains >=1 Get answered from a block that was already in the block cache"
+const rule = "programs with every argument buffer poisoned after each call and every DB.Get/Transaction.Get result scribbled over (full capacity) or held-then-scribbled, iterator key/value re-checked before each move, results vs Go map; all cells of {pool on/off} x {block cache on/off/tiny/no-LRU} x {none,snappy} x {write buffer, frozen buffer, level 0, deeper level} enumerated; non-trivial = the program contains >=1 Get answered from a block that was already in the block cache; second pass: merge storms (2..16 writers overwrite their key/value/batch buffers the moment Put/Delete/Write returns, all values read back after each round and after journal replay; non-trivial = >=1 call shared another call's journal record) and backward walks (DB/Snapshot/Transaction iterators moved Last/Prev/Seek+Prev/First/Next under compactions, value slices overwritten after every movement, slices kept across Release; non-trivial = >=1 position checked after a backward movement)"
 
 type cell struct {
 	nopool bool
@@ -59,6 +59,12 @@ func main() {
 	tok := extraTokens(a.Extra)
 	_, isChild := tok["child"]
 	_, isOne := tok["one"]
+	if _, ok := tok["onestorm"]; ok {
+		isOne = true
+	}
+	if _, ok := tok["onewalk"]; ok {
+		isOne = true
+	}
 	if a.Replay != "" || isChild || isOne || os.Getenv("C20_INPROC") != "" {
 		childMain(a, tok)
 		return
@@ -76,6 +82,37 @@ func plan(a vlib.Args, tok map[string]string) (perCell, nrand int) {
 		perCell *= 4
 	}
 	return
+}
+
+// plan2 returns the volume of the second pass: merge storms, backward walks.
+func plan2(a vlib.Args, tok map[string]string) (nstorm, nwalk int) {
+	nstorm, nwalk = 240, 192
+	if a.Thorough() {
+		nstorm, nwalk = 960, 960
+	}
+	if _, ok := tok["search"]; ok && !a.Thorough() {
+		nstorm, nwalk = 480, 384
+	}
+	return
+}
+
+// genStormAt / genWalkAt regenerate the i-th storm / walk of a run.
+func genStormAt(seed uint64, i int, thorough bool) Storm {
+	root := vlib.NewRNG(seed ^ 0x57024d)
+	var r *vlib.RNG
+	for k := 0; k <= i; k++ {
+		r = root.Fork()
+	}
+	return genStorm(r, i, thorough)
+}
+
+func genWalkAt(seed uint64, i int, thorough bool) Walk {
+	root := vlib.NewRNG(seed ^ 0x3a11c)
+	var r *vlib.RNG
+	for k := 0; k <= i; k++ {
+		r = root.Fork()
+	}
+	return genWalk(r, i, thorough)
 }
 
 // genJob regenerates the i-th program of a run (the run draws one RNG fork per program, in order).
@@ -124,6 +161,30 @@ func childMain(a vlib.Args, tok map[string]string) {
 			fmt.Println("cannot load replay:", err)
 			return
 		}
+		if p.Storm != nil {
+			res.Eval("replay-storm", true)
+			for i := 0; i < 5; i++ {
+				if _, f := runStorm(*p.Storm); f != "" {
+					fmt.Println("replay fails:", f)
+					res.Violate(f+" ["+p.Storm.String()+"]", p)
+					return
+				}
+			}
+			fmt.Println("replay passes")
+			return
+		}
+		if p.Walk != nil {
+			res.Eval("replay-walk", true)
+			for i := 0; i < 5; i++ {
+				if _, _, f := runWalk(*p.Walk); f != "" {
+					fmt.Println("replay fails:", f)
+					res.Violate(f, p)
+					return
+				}
+			}
+			fmt.Println("replay passes")
+			return
+		}
 		if len(p.KOps) > 0 {
 			res.Eval("replay-k", true)
 			if _, f := runKProg(p.Cfg, p.KOps); f != "" {
@@ -147,6 +208,28 @@ func childMain(a vlib.Args, tok map[string]string) {
 		return
 	}
 
+	if one, ok := tok["onestorm"]; ok {
+		var i int
+		fmt.Sscanf(one, "%d", &i)
+		st := genStormAt(a.Seed, i, a.Thorough())
+		_, f := runStorm(st)
+		res.Eval("storm"+one, true)
+		if f != "" {
+			res.Violate("merge storm: "+f+" ["+st.String()+"]", &Program{Seed: a.Seed, Storm: &st})
+		}
+		return
+	}
+	if one, ok := tok["onewalk"]; ok {
+		var i int
+		fmt.Sscanf(one, "%d", &i)
+		w := genWalkAt(a.Seed, i, a.Thorough())
+		_, _, f := runWalk(w)
+		res.Eval("walk"+one, true)
+		if f != "" {
+			res.Violate("backward walk: "+f, &Program{Seed: a.Seed, Walk: &w})
+		}
+		return
+	}
 	if one, ok := tok["one"]; ok {
 		var i int
 		fmt.Sscanf(one, "%d", &i)
@@ -178,6 +261,10 @@ func childMain(a vlib.Args, tok map[string]string) {
 	}
 
 	perCell, nrand := plan(a, tok)
+	_, only2 := tok["only2"] // run the second pass only (used when measuring which oracle catches a mutation)
+	if only2 {
+		perCell = 0
+	}
 	cells := allCells()
 	tStart := time.Now()
 	root := vlib.NewRNG(a.Seed)
@@ -285,10 +372,100 @@ func childMain(a vlib.Args, tok map[string]string) {
 	if len(missing) > 0 {
 		fmt.Println("cells not probed:", missing)
 	}
+	// second pass: merge storms and backward walks
+	nstorm, nwalk := plan2(a, tok)
+	if res.NViolations() > 0 {
+		nstorm, nwalk = 0, 0
+	}
+	{
+		type sj struct {
+			i  int
+			st Storm
+		}
+		sjobs := make(chan sj)
+		var wgs sync.WaitGroup
+		var nv int32
+		for w := 0; w < 16; w++ {
+			wgs.Add(1)
+			go func() {
+				defer wgs.Done()
+				for j := range sjobs {
+					stats, f := runStorm(j.st)
+					for k, v := range stats {
+						res.Count(k, v)
+					}
+					res.Eval(fmt.Sprintf("storm%d", j.i), stats["storm_calls_merged_into_another_record"] > 0)
+					if f != "" && atomic.AddInt32(&nv, 1) <= 2 {
+						res.Violate("merge storm: "+f+" ["+j.st.String()+"]", &Program{Seed: a.Seed, Storm: &j.st})
+					}
+				}
+			}()
+		}
+		sroot := vlib.NewRNG(a.Seed ^ 0x57024d)
+		for i := 0; i < nstorm; i++ {
+			sjobs <- sj{i, genStorm(sroot.Fork(), i, a.Thorough())}
+		}
+		close(sjobs)
+		wgs.Wait()
+		res.Extra["storm_phase_s"] = time.Since(tStart).Seconds()
+	}
+	var wcases []string
+	{
+		type wj struct {
+			i int
+			w Walk
+		}
+		wjobs := make(chan wj)
+		var wgw sync.WaitGroup
+		var nv int32
+		seenW := map[string]bool{}
+		for w := 0; w < 16; w++ {
+			wgw.Add(1)
+			go func() {
+				defer wgw.Done()
+				for j := range wjobs {
+					stats, obs, f := runWalk(j.w)
+					for k, v := range stats {
+						res.Count(k, v)
+					}
+					res.Eval(fmt.Sprintf("walk%d", j.i), stats["walk_positions_checked_backward"] > 0)
+					kmu.Lock()
+					for _, o := range obs {
+						t := renderKwalk(j.w, o)
+						if !seenW[t] && len(wcases) < 3000 {
+							seenW[t] = true
+							wcases = append(wcases, t)
+						}
+						if o.Kind == 0 {
+							res.Count(fmt.Sprintf("kiterx_acc%d_dir%d_class%d", o.Acc, o.Dir, o.Class), 1)
+						} else {
+							res.Count("kheld_observations", 1)
+							res.Count("kheld_cached_blocks", o.NCached)
+							res.Count("kheld_private_blocks", o.NOwned)
+						}
+					}
+					kmu.Unlock()
+					if f != "" && atomic.AddInt32(&nv, 1) <= 2 {
+						res.Violate("backward walk: "+f, &Program{Seed: a.Seed, Walk: &j.w})
+					}
+				}
+			}()
+		}
+		wroot := vlib.NewRNG(a.Seed ^ 0x3a11c)
+		for i := 0; i < nwalk; i++ {
+			wjobs <- wj{i, genWalk(wroot.Fork(), i, a.Thorough())}
+		}
+		close(wjobs)
+		wgw.Wait()
+		res.Extra["walk_phase_s"] = time.Since(tStart).Seconds()
+	}
 	// (K) programs for the model machine
 	nk := 3
 	if a.Thorough() {
 		nk = 20
+	}
+	if only2 {
+		nk = 0
 	}
 	type kjob struct {
 		cfg Cfg
@@ -353,6 +530,7 @@ func childMain(a vlib.Args, tok map[string]string) {
 			all = append(all, ktexts[ki])
 		}
 	}
-	kcases = all
+	sort.Strings(wcases)
+	kcases = append(all, wcases...)
 	res.WriteCases("From GL Require Import Corr.C20Run.", "c20case", "mismatches", kcases, 16)
 }
